@@ -36,7 +36,10 @@ def emit_kind(kind, ir, opts=None):
             kw["inline_types"] = o["inline"]
         if "kwonly" in o:
             kw["emit_as_kwonlyargs"] = o["kwonly"]
-        return to_code(emit.function(ir, function_name="f", function_type=ft, word_wrap=o["ww"],
+        fn = "f"
+        if o.get("ftnone"):  # name and type are taken from the IR (the documented Optional arguments)
+            ir["name"], ir["type"], fn, ft = "f", ft, None, None
+        return to_code(emit.function(ir, function_name=fn, function_type=ft, word_wrap=o["ww"],
                                      emit_default_doc=o["edd"], **kw))
     if kind == "argparse":
         return to_code(emit.argparse_function(ir, emit_default_doc=o["edd"], word_wrap=o["ww"]))
@@ -58,6 +61,23 @@ def parse_kind(kind, text, opts=None):
     if kind == "argparse":
         return parse.argparse_ast(node)
     raise ValueError(kind)
+
+
+def add_default_text(ir):
+    """The IR as a parser run with default text on hands it over: the prose of every entry that has prose and a
+    default also says 'Defaults to <value>' (strings quoted when the type is a string type).  Hand-written, in place."""
+    for name, p in list(ir["params"].items()) + list((ir.get("returns") or {}).items()):
+        if not p.get("doc") or "default" not in p or name.endswith("kwargs"):
+            continue
+        d = p["default"]
+        if d == al.NONE_STR:
+            shown = "None"
+        elif isinstance(d, str) and not rm.is_code_quoted(d) and ("str" in (p.get("typ") or "") or "'" in (p.get("typ") or "")):
+            shown = '"%s"' % d
+        else:
+            shown = d
+        doc = p["doc"] if p["doc"][-1] in ".," else p["doc"] + "."
+        p["doc"] = "%s Defaults to %s" % (doc, shown)
 
 
 class StyleSpy(object):
@@ -240,6 +260,8 @@ class RoundTrip(core.Check):
         kind = opts.get("kind", self.kind)
         base = self.base_facts(opts)
         cf = dict(base, **case_facts(case, atoms, ret))
+        if opts.get("ddoc"):
+            add_default_text(ir)
         try:
             text = emit_kind(kind, ir, opts)
         except Exception as e:
